@@ -104,3 +104,12 @@ plan("C16", "exploration",
      assumptions=["ISA needs come from disassembly (objdump) classified by encoding (legacy/VEX/EVEX+length) and mnemonic; unknown legacy mnemonics are baseline",
                   "strong dependency closure: SSE4.2->SSE4.1, AVX->SSE4.2, AVX2->AVX, AVX512F->AVX2, {DQ,CD,BW,VL,VNNI,VPOPCNTDQ}->F, {VBMI2,BITALG}->BW, {VAES,VPCLMULQDQ}->AVX, XCR0 rules",
                   "SSE3/SSSE3 are tied to SSE4.1 and the CPU signature is non-Avoton in the enforced space"])
+
+plan("C01", "exploration",
+     "Generated: data recipes (empty, tiny, repetitive, incompressible > 64 KiB so stored blocks split, > 2*32 KiB+look-ahead so the window wraps, long-range repeats) x level 0-3 x flush x "
+     "5 wrapper modes x hist_bits 0-15 x {default, static, custom-from-data, custom-from-random-histogram} x 6 level_buf sizes (and NULL for stateless level 1) x {stateless, one call, streaming "
+     "with generated in/out chunk schedules} x 12 simulated cpu levels; thorough adds the 8 KiB-window and LONGER_HUFFTABLE builds. Oracle: zlib + RFC 1951 reference decoder. "
+     "Non-trivial: stream with a match, >=2 blocks or split stored block.",
+     lambda tier: [S("C01", 6000)] if tier == "quick" else [S("C01", 150000), S("C01", 40000, cfg="hist8k"), S("C01", 40000, cfg="longhuff")],
+     assumptions=["zlib 1.2.13 inflate and an RFC 1951 decoder written for this framework are the independent decoders",
+                  "output space is generous here (tight space is C10)", "hist_bits is generated in 0..15 as documented"])
